@@ -88,6 +88,12 @@ func (t *TCP) Decode(packet []byte) (byte, PDU, error) {
 
 	txID := binary.BigEndian.Uint16(packet[:2])
 
+	// the MBAP length field counts the unit identifier, function code and data
+	if int(binary.BigEndian.Uint16(packet[4:6])) != len(packet)-6 {
+		return 0, PDU{}, fmt.Errorf("TCP packet length %v does not match length field %v",
+			len(packet)-6, binary.BigEndian.Uint16(packet[4:6]))
+	}
+
 	switch t.clientServer {
 	case TransportClient:
 		// need to check that echo'd tx is correct
